@@ -17,7 +17,7 @@ func NewLexer(r io.Reader) *Lexer {
 		Lexer: ybase.NewLexer(
 			ybase.NewScanner(
 				ybase.NewReader(
-					r,
+					&eofReader{r: r},
 					slog.Debug,
 				),
 				scanner.ScanFunc,
@@ -26,6 +26,23 @@ func NewLexer(r io.Reader) *Lexer {
 	}
 	scanner.publishError = lex.Error
 	return lex
+}
+
+// eofReader remembers the end of the input. The buffered reader below asks
+// again on every read at the end, and a terminal reports the end of the input
+// only once per end-of-file key, so without this crd keeps waiting for more.
+type eofReader struct {
+	r   io.Reader
+	err error
+}
+
+func (e *eofReader) Read(p []byte) (int, error) {
+	if e.err != nil {
+		return 0, e.err
+	}
+	n, err := e.r.Read(p)
+	e.err = err
+	return n, err
 }
 
 var (
